@@ -79,6 +79,13 @@ func vfC03(w *vfWorld) {
 	cfg.Store = vfPick(t, "c03.store", []string{"cookie", "cookie", "redis"})
 	cfg.SkipButton = t.Bool("c03.skipbutton") // false: protected paths and /sign_in show the sign-in page, logins start at /start only
 	cfg.CookieExpire = vfPick(t, "c03.expire", []time.Duration{4 * time.Hour, 0})
+	// the session's refresh period has nothing to do with a login in progress; the user may take minutes at the identity
+	// provider (well inside cookie-csrf-expire, 15 min)
+	cfg.CookieRefresh = vfPick(t, "c03.refresh", []time.Duration{0, time.Minute, time.Hour, 0})
+	if cfg.CookieExpire != 0 && cfg.CookieRefresh >= cfg.CookieExpire {
+		cfg.CookieRefresh = 0
+	}
+	atIdP := vfPick(t, "c03.at-idp", []time.Duration{0, 0, 3 * time.Minute, 10 * time.Minute, 14 * time.Minute})
 	cs.PerRequest, cs.EncodeState, cs.PKCE, cs.Store = cfg.CSRFPerRequest, cfg.EncodeState, cfg.PKCE, cfg.Store
 	w.StartIdP()
 	reps := w.Standard(cfg, 1)
@@ -144,6 +151,9 @@ func vfC03(w *vfWorld) {
 	}
 	established := func(r *vfResp) bool { return vfSessionCookieSet(r, cfg.CookieName) }
 
+	if atIdP > 0 {
+		w.Sleep(atIdP)
+	}
 	// ---- phase 1: honest completions through the real jars, in a tape-chosen order ----
 	order := make([]int, len(logins))
 	for i := range order {
@@ -263,7 +273,8 @@ func vfC03(w *vfWorld) {
 		var pairs []string
 		ckDesc := ""
 		name := lj.Lg.CSRFName
-		switch t.Weighted("c03.cmut", 6, 3, 2, 2, 2, 2, 1, 1, 1) {
+		ownPlusInvalid := false
+		switch t.Weighted("c03.cmut", 6, 3, 2, 2, 2, 2, 1, 1, 1, 2) {
 		case 0: // own cookie only
 			pairs, ownIntact, ckDesc = []string{name + "=" + lj.Lg.CSRFValue}, true, "cookie(own)"
 		case 1: // cookie of another login (same or other browser), under its own name
@@ -314,6 +325,28 @@ func vfC03(w *vfWorld) {
 			}
 			ownIntact = true
 			ckDesc = fmt.Sprintf("cookie(own and #%d under one name)", k)
+		case 9: // own + a same-named cookie that is NOT a valid cookie of this deployment (a sibling deployment on the parent
+			// domain, a stale or damaged copy), both orders: the login's own cookie is there, unmodified - it must succeed
+			var junk string
+			switch t.Choice("c03.junk", 4) {
+			case 0:
+				parts := strings.Split(lj.Lg.CSRFValue, "|")
+				raw, _ := base64.URLEncoding.DecodeString(parts[0])
+				junk, _ = encryption.SignedValue(otherSecret, name, raw, time.Now())
+			case 1:
+				v := lj.Lg.CSRFValue
+				junk = v[:len(v)/2] + string(vfB64URL[(strings.IndexByte(vfB64URL, v[len(v)/2])+7)%64]) + v[len(v)/2+1:]
+			case 2:
+				junk = "bm90LWEtY3NyZi1jb29raWU=|1700000000|AAAAAAAAAAAAAAAAAAAAAAAAAAAAAAAAAAAAAAAAAAA="
+			case 3:
+				junk = "garbage"
+			}
+			pairs = []string{name + "=" + lj.Lg.CSRFValue, name + "=" + junk}
+			if t.Bool("c03.order") {
+				pairs[0], pairs[1] = pairs[1], pairs[0]
+			}
+			ownIntact, ownPlusInvalid = true, true
+			ckDesc = "cookie(own and an invalid one under one name)"
 		case 8: // session-cookie name / split-part name carrying the CSRF value
 			pairs, ckDesc = []string{cfg.CookieName + "=" + lj.Lg.CSRFValue, cfg.CookieName + "_csrf_0=" + lj.Lg.CSRFValue}, "cookie(value under other names)"
 		}
@@ -330,7 +363,7 @@ func vfC03(w *vfWorld) {
 			if !(stateIntact && ownIntact) {
 				w.violate("C03", "session-from-mismatched-pair", vfC03Key(stateDesc, ckDesc), "a session was established for login #%d from %s + %s (per-request=%v encode-state=%v pkce=%q)", j, stateDesc, ckDesc, cfg.CSRFPerRequest, cfg.EncodeState, cfg.PKCE)
 			}
-		} else if stateIntact && ownIntact && len(pairs) == 1 && stateDesc == "state(own)" {
+		} else if stateIntact && ownIntact && (len(pairs) == 1 || ownPlusInvalid) && stateDesc == "state(own)" {
 			w.violate("C03", "honest-callback-refused", "attack-phase", "unmodified state + own cookie refused: %d (%s + %s)", r.Status, stateDesc, ckDesc)
 		}
 		if r.Status != 302 && r.Status != 403 && r.Status != 500 && r.Status != 400 {
